@@ -12,7 +12,13 @@ TRUSTED = [
     "T2: next()/for over a list-backed iterator returns the elements in order and raises StopIteration at the end",
     "T3: x < c with c a Comparable and x a built-in value evaluates c.__gt__(x) (reflected), x == c evaluates c.__eq__(x)",
     "T4: see value axioms",
-    "T6: list/tuple/len/range/insert/extend/append/index/slicing/itemgetter/dict behave as documented",
+    "T6: list/tuple/len/range/insert/extend/append/index/slicing/itemgetter/dict/set/Counter/deque/reversed behave as documented",
+    "T2: islice / zip / zip_longest / enumerate / count / itertools.product / groupby (at group level) behave as documented",
+    "arithmetic: Python ints are unbounded, so SMT integers model them exactly; floats and Decimals are compared as mathematical reals "
+    "(`num`), i.e. rounding, overflow to inf and NaN are outside the value domain",
+    "the verifier itself: pyvc (AST -> VC generator written for this task; guarded by canaries, the engine-vs-CPython differential, "
+    "seeded source changes and behaviour-preserving refactorings) and the solvers z3 5.1 / cvc5 1.0.3",
+    "termination of for loops over finite sources and of the while loops under contract is not proved",
 ]
 
 
